@@ -1,0 +1,14 @@
+//go:build verif
+
+package engine
+
+import (
+	"github.com/nspcc-dev/neofs-node/pkg/local_object_storage/blobstor/common"
+	"github.com/nspcc-dev/neofs-node/pkg/local_object_storage/shard"
+)
+
+// VerifShard returns the shard with the given ID, nil if there is none
+// (verification harness only).
+func (e *StorageEngine) VerifShard(id common.ID) *shard.Shard {
+	return e.getShard(id.String()).Shard
+}
